@@ -196,7 +196,7 @@ class Gen(object):
         if n in ("height", "altitude", "pressure", "temperature"):
             return {"pressure": 1010.0, "temperature": 10.0}.get(n, r.uniform(0.0, 3000.0))
         if n in ("i_sat",):
-            return r.randint(0, 3)
+            return r.randint(1, 4)           # "number of the satellite": 1 (Io) .. 4 (Callisto)
         if n in ("n_dec", "n"):
             return r.randint(0, 6)
         if n in ("tol",):
@@ -422,6 +422,26 @@ def b_api(rng, tier):
                         res = "raised %s" % type(e).__name__
                     yield ((qual, "ill-typed", p.name, type(badv).__name__),
                            (not res.startswith("raised") and res != "silently returned None") or res == "ok", res, False)
+            # out-of-range whole numbers for parameters documented as int (indices, counts): whatever the documented range is,
+            # a value outside it is refused with TypeError / ValueError, never with another exception class
+            for i, p in enumerate(base_params):
+                t = (tmap.get(p.name) or "").lower()
+                if not t.startswith("int") or "float" in t:
+                    continue
+                for badv in (-3, 0, 5, 7, 99, 10 ** 6):
+                    try:
+                        a2 = list(call_args)
+                        a2[i + (1 if is_method else 0)] = badv
+                    except Exception:
+                        continue
+                    try:
+                        f(*a2)
+                        res = "accepted"
+                    except (TypeError, ValueError):
+                        res = "ok"
+                    except Exception as e:
+                        res = "raised %s" % type(e).__name__
+                    yield ((qual, "out-of-range", p.name, badv), not res.startswith("raised"), res, False)
     for qual_, shp in sorted(shapes_seen.items()):
         yield ((qual_, "same type and arity of the result on every call"), len(shp) <= 1, sorted(shp), False)
     g1 = globals_snapshot()
